@@ -463,6 +463,123 @@ def to_poly_params(t, env):
 
 
 # ------------------------------------------------------------------ truncated polynomials
+class Und2(Exception):
+    pass
+
+
+def _mul_pairs(prog, mul, store, idxs):
+    te = mul.terms
+    bb, pt, val, line = store
+    MAXC = None
+    for pth, c in prog.consts.items():
+        if pth.endswith("MAX_COEFFS") and c.get("val"):
+            MAXC = int(c["val"])
+    if MAXC is None:
+        raise Und2("MAX_COEFFS not found")
+
+    def iter_local(ix):
+        ix = strip(ix)
+        for x in [ix] + list(mir.subterms(ix)):
+            if mir.is_call(x, "next") and x[2] and strip(x[2][0])[0] == "mutref":
+                return strip(x[2][0])[1]
+        return None
+
+    def range_of(loc):
+        for (h, l), init in te.mu_init.items():
+            if l == loc:
+                r = strip(init)
+                while mir.is_call(r) and r[1].name in ("into_iter", "iter") and r[2]:
+                    r = strip(r[2][0])
+                if r[0] == "agg" and "Range" in str(r[2]) and len(r[4]) == 2:
+                    return r[4][0], r[4][1], h
+        return None
+    locs = [iter_local(i) for i in idxs]
+    if None in locs or len(locs) != 2:
+        raise Und2("the two loop counters of the product were not found")
+    rngs = [range_of(l) for l in locs]
+    if None in rngs:
+        raise Und2("a loop of the product is not a range loop")
+    # which index is the outer one: the loop whose header dominates the other's
+    (i_ix, i_rng), (j_ix, j_rng) = (idxs[0], rngs[0]), (idxs[1], rngs[1])
+    if not mul.cfg.dominates(i_rng[2], j_rng[2]):
+        (i_ix, i_rng), (j_ix, j_rng) = (j_ix, j_rng), (i_ix, i_rng)
+    which = {}        # base name of the array each counter indexes
+    v = strip(val)
+    for x in mir.subterms(v):
+        if x[0] == "index" and strip(x[2]) == strip(i_ix):
+            which["i"] = show(strip(x[1]))
+        if x[0] == "index" and strip(x[2]) == strip(j_ix):
+            which["j"] = show(strip(x[1]))
+
+    def ev(t, env):
+        t = strip(t)
+        if t == strip(i_ix):
+            return env["i"]
+        if t == strip(j_ix):
+            if "j" not in env:
+                raise Und2("outer bound depends on the inner counter")
+            return env["j"]
+        if t[0] == "const":
+            return int(t[2])
+        if t[0] == "constitem":
+            if t[1].endswith("MAX_COEFFS"):
+                return MAXC
+            raise Und2("constant %s" % t[1])
+        if t[0] == "field" and t[2] == "len" and strip(t[1])[0] == "param":
+            return env["len%d" % strip(t[1])[1]]
+        if t[0] == "field" and t[2] == "0" and strip(t[1])[0] == "bin":
+            return ev(t[1], env)
+        if t[0] == "cast":
+            return ev(t[2], env)
+        if t[0] == "bin":
+            op = t[1].replace("WithOverflow", "")
+            a, b = ev(t[2], env), ev(t[3], env)
+            if op == "Add":
+                return a + b
+            if op == "Sub":
+                if a - b < 0:
+                    raise Und2("negative bound")
+                return a - b
+            if op in ("Lt", "Le", "Gt", "Ge", "Eq", "Ne"):
+                return int({"Lt": a < b, "Le": a <= b, "Gt": a > b, "Ge": a >= b, "Eq": a == b, "Ne": a != b}[op])
+            raise Und2("operator %s" % op)
+        if mir.is_call(t) and t[1].name in ("min", "max") and len(t[2]) == 2:
+            a, b = ev(t[2][0], env), ev(t[2][1], env)
+            return min(a, b) if t[1].name == "min" else max(a, b)
+        if mir.is_call(t) and t[1].name in ("saturating_sub",) and len(t[2]) == 2:
+            return max(0, ev(t[2][0], env) - ev(t[2][1], env))
+        if t[0] == "mu":
+            init = te.mu_init.get((t[1], t[2]))
+            ups = te.mu_update.get((t[1], t[2]), [])
+            if init is not None and all(strip(u) == t for u in ups):
+                return ev(init, env)
+        raise Und2("bound %s" % show(t)[:40])
+    guards = [(strip(c), val_ != "0") for c, val_, _, _ in te.facts_at(bb)
+              if strip(c)[0] == "bin" and strip(c)[1] in ("Lt", "Le", "Gt", "Ge") and "next(" in show(c) and "discr" not in show(c)]
+    self_i = "arg1" in which.get("i", "arg1")
+    errs = []
+    for l1 in (0, 1, 2, 3, MAXC - 1, MAXC):
+        for l2 in (0, 1, 2, 3, MAXC - 1, MAXC):
+            env0 = {"len1": l1, "len2": l2}
+            li, lj = (l1, l2) if self_i else (l2, l1)
+            want = {(i, j) for i in range(li) for j in range(lj) if i + j < MAXC}
+            got = set()
+            for i in range(ev(i_rng[0], dict(env0, i=0)), ev(i_rng[1], dict(env0, i=0))):
+                env = dict(env0, i=i)
+                for j in range(ev(j_rng[0], env), ev(j_rng[1], env)):
+                    env["j"] = j
+                    if all(bool(ev(c, env)) == truth for c, truth in guards):
+                        got.add((i, j))
+            if got != want:
+                miss, extra = sorted(want - got), sorted(got - want)
+                errs.append("for operand lengths %d and %d the product %s: e.g. the term self[%d]·rhs[%d] of degree %d" % (
+                    l1, l2, "skips pairs it must add" if miss else "adds pairs it must not",
+                    (miss or extra)[-1][0] if self_i else (miss or extra)[-1][1], (miss or extra)[-1][1] if self_i else (miss or extra)[-1][0],
+                    sum((miss or extra)[-1])))
+                return errs
+    return errs
+
+
 def polynomial_laws(prog):
     PA = SR + "polynomial_semiring_implementation::Polynomial"
     out = []
@@ -493,6 +610,7 @@ def polynomial_laws(prog):
     stores = [(bb, canon_slots(pt), canon_slots(val), line) for bb, pt, val, line in te.stores]
     stores = [s for s in stores if s[1][0] == "index"]
     errs = []
+    idxs = []
     if len(stores) != 1:
         errs.append("%sexpected one coefficient write in the body of mul, found %d" % ("?" if not stores else "", len(stores)))
     else:
@@ -521,6 +639,20 @@ def polynomial_laws(prog):
                         "(several (i, j) hit one slot; overwriting loses cross terms)" % (line, show(pt)[:40], show(v)[:80]))
     out.append(inst("LAW", "%s:mul-convolution" % PA, verdict_of(errs), mul, None,
                     errtext(errs) if errs else "new[i+j] = new[i+j] + self[i]·rhs[j]"))
+    # which pairs (i, j) the write is executed for: every pair with i < len1, j < len2, i + j < MAX_COEFFS and no other.
+    # The loop bounds and the guards of the write are evaluated for concrete small lengths (index arithmetic over a
+    # finite range, as VT does for slices) — a clamp that is off by one loses exactly the terms of the top degree.
+    perrs = []
+    if len(stores) == 1 and not errs:
+        try:
+            perrs = _mul_pairs(prog, mul, stores[0], idxs)
+        except Und2 as e:
+            perrs = ["?%s" % e]
+    elif not errs:
+        perrs = ["?no single coefficient write"]
+    if perrs or not errs:
+        out.append(inst("LAW", "%s:mul-pairs-complete" % PA, verdict_of(perrs), mul, None,
+                        errtext(perrs) if perrs else "the write runs for exactly the pairs i < len1, j < len2, i + j < MAX_COEFFS"))
     add = prog.find1(name="add", self_adt=PA, impl_trait="std::ops::Add", unit="rsdd-lib")
     te = add.terms
     stores = [s for s in te.stores if s[1][0] == "index"]
